@@ -35,7 +35,7 @@
 #include "isal_crypto_api.h"
 
 extern uint64_t
-_rolling_hash2_run_until(uint32_t *idx, int max_idx, uint64_t *t1, uint64_t *t2, uint8_t *b1,
+_rolling_hash2_run_until(uint32_t *idx, uint32_t max_idx, uint64_t *t1, uint64_t *t2, uint8_t *b1,
                          uint8_t *b2, uint64_t h, uint64_t mask, uint64_t trigger);
 
 int
@@ -81,10 +81,10 @@ hash_fn(struct isal_rh_state2 *state, uint64_t h, uint8_t new_char, uint8_t old_
 }
 
 uint64_t
-_rolling_hash2_run_until_base(uint32_t *idx, int max_idx, uint64_t *t1, uint64_t *t2, uint8_t *b1,
+_rolling_hash2_run_until_base(uint32_t *idx, uint32_t max_idx, uint64_t *t1, uint64_t *t2, uint8_t *b1,
                               uint8_t *b2, uint64_t h, uint64_t mask, uint64_t trigger)
 {
-        int i = *idx;
+        uint32_t i = *idx;
 
         if (trigger == 0) {
                 for (; i < max_idx; i++) {
